@@ -209,6 +209,7 @@ func solveAll(obls []*Obligation, outDir string, timeout time.Duration, thorough
 	files := make([]string, len(obls))
 	cases := make([][]string, len(obls))
 	var wg sync.WaitGroup
+	var phase2 []int
 	sem := make(chan struct{}, jobs)
 	launch := func(i int) {
 		wg.Add(1)
@@ -264,6 +265,39 @@ func solveAll(obls []*Obligation, outDir string, timeout time.Duration, thorough
 			launch(i)
 			continue
 		}
+		if !thorough && o.Kind != "cover" && o.Expect == "unsat" {
+			// quick tier, phase 1: the query as it is, with a short time limit; the quantifier-free
+			// strengthening (expensive to produce) is only made for what is left over
+			as := append([]*Term{}, o.ex.Assumes[:o.NAssume]...)
+			as = append(as, o.Extra...)
+			as = append(as, o.Guard)
+			os.WriteFile(f, []byte(SMTQuery(as, o.Goal, []string{"(set-logic ALL)", "; obligation " + o.Name, "; " + o.Note, "; " + o.Pos.String()}, footer)), 0644)
+			cases[i] = []string{f}
+			phase2 = append(phase2, i)
+			wg.Add(1)
+			go func(i int) {
+				defer wg.Done()
+				sem <- struct{}{}
+				defer func() { <-sem }()
+				short := 6 * time.Second
+				if timeout < short {
+					short = timeout
+				}
+				r := &Result{O: obls[i], File: files[i], Status: "unknown"}
+				for _, rr := range race(solverList()[:2], files[i], short, 1) {
+					r.Tried = append(r.Tried, fmt.Sprintf("%s:%s:%.2fs", rr.sp.Name, rr.status, rr.secs))
+					if rr.secs > r.Secs {
+						r.Secs = rr.secs
+					}
+					if (rr.status == "sat" || rr.status == "unsat") && r.Status == "unknown" {
+						r.Status, r.Solver, r.Output = rr.status, rr.sp.Name, rr.out
+						r.Agreed = []string{rr.sp.Name}
+					}
+				}
+				res[i] = r
+			}(i)
+			continue
+		}
 		full, qf := o.smtBoth(footer)
 		os.WriteFile(f, []byte(full), 0644)
 		if qf != "" {
@@ -271,6 +305,35 @@ func solveAll(obls []*Obligation, outDir string, timeout time.Duration, thorough
 		}
 		cases[i] = []string{f}
 		launch(i)
+	}
+	if len(phase2) > 0 {
+		wg.Wait()
+		for _, i := range phase2 {
+			if res[i] != nil && (res[i].Status == "sat" || res[i].Status == "unsat") {
+				continue
+			}
+			o := obls[i]
+			prev := res[i]
+			as := append([]*Term{}, o.ex.Assumes[:o.NAssume]...)
+			as = append(as, o.Extra...)
+			as = append(as, o.Guard)
+			hdr := []string{"(set-logic ALL)", "; obligation " + o.Name, "; " + o.Note, "; " + o.Pos.String()}
+			if qf := qfText(as, o.Goal, hdr, []string{"(check-sat)"}); qf != "" {
+				os.WriteFile(files[i]+".qf", []byte(qf), 0644)
+			}
+			wg.Add(1)
+			go func(i int, prev *Result) {
+				defer wg.Done()
+				sem <- struct{}{}
+				defer func() { <-sem }()
+				r := solveOne(obls[i], files[i], timeout, thorough)
+				if prev != nil {
+					r.Tried = append(prev.Tried, r.Tried...)
+					r.Secs += prev.Secs
+				}
+				res[i] = r
+			}(i, prev)
+		}
 	}
 	wg.Wait()
 	return res
